@@ -29,10 +29,48 @@ from ..engine.util import _flatten_target, u
 Tri = bool | None
 
 
+def parts_of(n: Any) -> list[ast.AST]:
+    """own_parts() of a CFG node, except that a nested def / class statement contributes nothing: its
+    body is not evaluated where it is defined."""
+    if isinstance(n.ast, (ast.FunctionDef, ast.AsyncFunctionDef, ast.ClassDef)):
+        return []
+    return own_parts(n)
+
+
 def unawait(e: ast.AST | None) -> ast.AST | None:
     while isinstance(e, ast.Await):
         e = e.value
     return e
+
+
+# functions bound by role (see first_run_sync_name): like the engine's ANCHOR_NAMES they are analysed in
+# their own right and never spliced into their callers
+KEEP_NAMES: set[str] = set()
+
+
+def first_run_sync_name(prog: Program) -> str:
+    """Name of the first-run synchronisation of FormulaEvaluator, bound by role: the method (other than
+    __init__) that clears `self._first_run`; `_synchronize_metric_timestamps` is only the hint."""
+    cls = prog.cls("timeseries.formula_engine._formula_evaluator:FormulaEvaluator")
+    hint = "_synchronize_metric_timestamps"
+    if hint in cls.methods:
+        KEEP_NAMES.add(hint)
+        return hint
+    cands = []
+    for m in cls.methods.values():
+        if m.name == "__init__":
+            continue
+        for x in ast.walk(m.node):
+            if isinstance(x, (ast.Assign, ast.AnnAssign)) and isinstance(x.value, ast.Constant) and x.value.value is False and any(
+                    isinstance(t, ast.Attribute) and t.attr == "_first_run" for t in (x.targets if isinstance(x, ast.Assign) else [x.target])):
+                cands.append(m.name)
+                break
+    # a trivial flag-clearing helper does not count when its only caller is another candidate... keep it simple:
+    cands = [c for c in cands if any(isinstance(x, (ast.For, ast.AsyncFor, ast.While)) for x in ast.walk(cls.methods[c].node))] or cands
+    if len(cands) != 1:
+        raise AnalysisError(f"{cls.qual}: no method plays the role of the first-run synchronisation (candidates: {cands})")
+    KEEP_NAMES.add(cands[0])
+    return cands[0]
 
 
 def private_callee(prog: Program, fn: FuncInfo, call: ast.Call) -> FuncInfo | None:
@@ -47,7 +85,7 @@ def private_callee(prog: Program, fn: FuncInfo, call: ast.Call) -> FuncInfo | No
         m = prog.resolve_method(fn.cls, f.attr)
         if m is not None and not any(f.attr in sub.methods for sub in prog.subclasses(fn.cls)):
             tgt = m
-    if tgt is None or tgt.name in ANCHOR_NAMES or tgt.node is fn.node:
+    if tgt is None or tgt.name in ANCHOR_NAMES or tgt.name in KEEP_NAMES or tgt.node is fn.node:
         return None
     return tgt
 
@@ -123,7 +161,7 @@ def spliced(prog: Program, fn: FuncInfo) -> FuncInfo:
         ps = {a.arg for a in h.node.args.posonlyargs + h.node.args.args + h.node.args.kwonlyargs}
         if any(isinstance(x, ast.Name) and isinstance(x.ctx, (ast.Store, ast.Del)) and x.id in ps for x in ast.walk(h.node)):
             rebinds.add(h.name)
-    return FuncInfo(fn.name, fn.module, inline_helpers(prog, fn, node=node, exclude=rebinds), fn.cls, fn.outer)
+    return FuncInfo(fn.name, fn.module, inline_helpers(prog, fn, node=node, exclude=rebinds | KEEP_NAMES), fn.cls, fn.outer)
 
 
 # ---------------------------------------------------------------------------------------------
@@ -166,7 +204,7 @@ class Flow:
         for n in self.cfg.nodes:
             if n.ast is None:
                 continue
-            for part in own_parts(n):
+            for part in parts_of(n):
                 for x in ast.walk(part):
                     self._nid_of.setdefault(id(x), n.id)
                     for ch in ast.iter_child_nodes(x):
@@ -186,7 +224,7 @@ class Flow:
         for n in self.cfg.nodes:
             if n.ast is None or n.id not in self.live:
                 continue
-            if any(isinstance(x, ast.Call) and pred(x) for part in own_parts(n) for x in ast.walk(part)):
+            if any(isinstance(x, ast.Call) and pred(x) for part in parts_of(n) for x in ast.walk(part)):
                 out.append(n.id)
         return out
 
@@ -195,7 +233,7 @@ class Flow:
         for n in self.cfg.nodes:
             if n.ast is None or n.id not in self.live:
                 continue
-            for part in own_parts(n):
+            for part in parts_of(n):
                 for x in ast.walk(part):
                     if isinstance(x, ast.Call) and pred(x):
                         out.append((n.id, x))
@@ -232,7 +270,7 @@ class Flow:
         if n.kind == "handler":
             nm = getattr(n.ast, "name", None)
             return [ast.Name(id=nm, ctx=ast.Store())] if nm else []
-        for part in own_parts(n):
+        for part in parts_of(n):
             for x in ast.walk(part):
                 if isinstance(x, (ast.FunctionDef, ast.AsyncFunctionDef, ast.ClassDef)) and x is not part:
                     continue
